@@ -50,12 +50,13 @@ def handle (op : String) (req : Json) : R Json := do
     let part ← getBool req "partial"
     let nidx ← fld req "nidx" >>= asOpt (asList asNat)
     let outd ← fld req "out" >>= asOpt (asList asRat)
+    let aliases ← getBool req "aliases"
     if xd.length ≠ n0 * n1 ∨ md.length ≠ n0 * n1 then throw "data/shape mismatch"
     if b0 = 0 ∨ b1 = 0 then throw "zero block"
     let x := mkImg n0 n1 xd.toArray
     let mask := mkMask n0 n1 md.toArray
     let idx := shuffleIdx x mask b0 b1 padMode part
-    let model := nidx.map (fun s => flat (shuffleBlocks x mask b0 b1 padMode part s))
+    let model := nidx.map (fun s => flat (shuffleBlocksLayout aliases x mask b0 b1 padMode part s))
     let spec ← match outd with
       | none => pure Json.null
       | some od =>
